@@ -179,16 +179,8 @@ def run(ctx):
     cases, impl, lines, seen, classes = [], [], [], set(), {}
     t0, done = time.time(), 0
     cfgs = [(U, L, fb) for fb in subsets for (U, L) in roles]
-    # fixed witnesses first (D5 of DESIGN §5 and the variants found while reading the class)
-    fixed = [
-        ("M", "M", ["a/b", "c"], [("r", "a/b")]),
-        ("M", "M", ["a/b", "c"], [("s", "a/n", b"1", "u0", None, None), ("d", "a", True)]),
-        ("F", "M", ["a/b"], [("k", "g"), ("d", "g", False)]),
-        ("M", "M", ["c"], [("m", "c", "u0", None, None)]),
-        ("F", "F", ["c"], [("m", "c", "u0", 3, b"F:c")]),
-        ("M", "M", ["a/b"], [("d", "a", True), ("s", "a/n", b"22", "u1", None, None)]),
-        ("M", "F", ["c", "a/b"], [("r", "c")]),
-    ]
+    # corpus first: the D5 witnesses of DESIGN §5 and the variants found while reading the class
+    fixed = [(c["U"], c["L"], c["fb"], [Y.op_unjson(o) for o in c["ops"]]) for c in Y.load_corpus("C15") if c.get("kind") == "ov"]
     rounds = 0
     while True:
         todo = [(U, L, fb, ops, None) for (U, L, fb, ops) in fixed] if rounds == 0 else [(U, L, fb, None, ctx.rng.randint(4, 12)) for (U, L, fb) in cfgs]
